@@ -7,7 +7,8 @@ export CARGO_NET_OFFLINE=true
 (cd harness && cargo build --release --offline -q)
 # 2. parameters regenerated from the Rust sources, then the whole Coq development (full .vo)
 python3 tools/extract_params.py /repo coq/Gen/Params.v
-sh tools/coqmake.sh >/dev/null
+# (keep going: a check builds its own targets again and reports what does not build)
+sh tools/coqmake.sh -k >/dev/null 2>&1 || echo "setup: some Coq targets did not build (the affected checks will report it)"
 # 3. extraction + OCaml driver
-sh ocaml/build.sh
+for g in ocaml/*/Extract.v; do sh ocaml/build.sh "$(basename "$(dirname "$g")")" || echo "setup: model driver $g did not build"; done
 echo "setup ok"
